@@ -155,6 +155,15 @@ def other_rows(run, rows, quick):
         suid, secret = s.key(20, "secret", otype="SecretData", seed=3)
         suid2, secret2 = s.key(24, "secret", otype="SecretData", seed=4)      # a second base object: the derivation data when none is given
         msgs = [b"", b"a", b"0123456789abcdef", b"0123456789abcdefX", bytes(range(200))]
+        pubder = E.rsa_pair()["pub"]
+        pubder = pubder + b"\x00" * ((8 - len(pubder) % 8) % 8) if False else pubder
+        s.intern.define("rsapub_as_sym", pubder)
+        rr = item(s.drv.request(D.one("Register", {"otype": "SymmetricKey", "attrs": [{"name": "Cryptographic Usage Mask", "v": ALLBITS}],
+                                                   "obj": {"type": "SymmetricKey", "val": "rsapub_as_sym", "alg": "AES", "len": len(pubder) * 8, "fmt": "RAW"}}, ver=(1, 4))))
+        if rr["status"] != "Success":
+            raise common.MachineryFailure("cannot register the RSA-bytes symmetric key: %s" % rr)
+        rsasym = rr["pl"]["uid"]
+        s.drv.request(D.one("Activate", {"uid": rsasym}))
         for rec in rows:
             if rec["k"] == "mac":
                 alg = rec["alg"]
@@ -268,6 +277,15 @@ def other_rows(run, rows, quick):
                         run.violation("C06_internal_error", sig, {"row": rec, "response": r})
                     elif r["status"] == "Success":
                         run.violation("C06_accepts_what_must_be_refused", sig, {"row": rec, "response": r})
+                    # ... and with a symmetric key object whose bytes happen to BE an RSA public key (any byte string is
+                    # accepted as symmetric key material): the backend then really computes - or refuses - RSA; whatever it
+                    # does, the answer is a specific one (data too long for the modulus, ciphertext of the wrong length ...)
+                    for dl in (1, 16, 200):
+                        r2 = item(s.drv.request(D.one(op, {"uid": rsasym, "cp": cp, "data": "5a" * dl}, ver=(1, 4))))
+                        n += 1
+                        run.case(("asym-rsabytes", op, d["pad"], d["hash"], dl, r2["status"], r2["reason"]))
+                        if r2["reason"] == "GeneralFailure":
+                            run.violation("C06_internal_error", dict(sig, k=sig["k"] + "-rsabytes", datalen=dl), {"row": rec, "response": r2})
             elif rec["k"] == "wrap" and rec.get("t", "SymmetricKey") != "SymmetricKey":
                 # the other kinds of object asked for wrapped: key blocks of other kinds are wrapped like a key, objects
                 # without a key block are refused
@@ -427,6 +445,24 @@ def signatures(run, quick, rows=()):
                     run.violation("C06_verify_accepts_other_key", sig, {})
                 if verify(pairs[0][1], m, bytes([sg[0] ^ 1]) + sg[1:]) == "VALID":
                     run.violation("C06_verify_accepts_modified_signature", sig, {})
+        # a private key that cannot produce the requested signature (an EC key under RSA parameters): a specific refusal
+        from cryptography.hazmat.primitives.asymmetric import ec
+        ecder = ec.generate_private_key(ec.SECP256R1()).private_bytes(serialization.Encoding.DER, serialization.PrivateFormat.PKCS8,
+                                                                      serialization.NoEncryption())
+        s.intern.define("ecpriv", ecder)
+        rr = item(s.drv.request(D.one("Register", {"otype": "PrivateKey", "attrs": [{"name": "Cryptographic Usage Mask", "v": ["SIGN"]}],
+                                                   "obj": {"type": "PrivateKey", "val": "ecpriv", "alg": "EC", "len": 256, "fmt": "PKCS_8"}}, ver=(1, 4))))
+        if rr["status"] == "Success":
+            s.drv.request(D.one("Activate", {"uid": rr["pl"]["uid"]}))
+            for cp in ({"pad": "PSS", "dsa": "SHA256_WITH_RSA_ENCRYPTION"}, {"pad": "PKCS1v15", "alg": "RSA", "hash": "SHA_512"}):
+                r = item(s.drv.request(D.one("Sign", {"uid": rr["pl"]["uid"], "cp": cp, "data": "0011"}, ver=(1, 4))))
+                n += 1
+                sig = {"k": "sign-eckey", "pad": cp.get("pad"), "dsa": cp.get("dsa"), "hash": cp.get("hash")}
+                run.case(("sign", common.jdump(sig), r["status"], r["reason"]))
+                if r["reason"] == "GeneralFailure":
+                    run.violation("C06_internal_error", sig, {"response": r})
+                elif r["status"] == "Success":
+                    run.violation("C06_accepts_what_must_be_refused", sig, {"response": r})
         # generated symmetric keys: requested length, fresh on every call
         seen = set()
         for ln in (128, 192, 256):
